@@ -1,19 +1,36 @@
-"""Rename-tolerance: map a function whose body is alpha-equivalent to the recorded baseline back to the baseline's
-local names before analysis.
+"""Surface tolerance: analyse a function that differs from the recorded baseline only by behaviour-preserving
+surface edits in the baseline's own surface form.
 
-The per-property checks locate many constructs through local variable names (`best_obj`, `tree`, `converged` ...).
-A refactor that only renames locals leaves behaviour unchanged, so it must not produce a report.  For every
-top-level function (with its nested closures) `anchors/locals.json` records an *alpha skeleton* digest (the AST with
-every unit-local name replaced by the index of its first occurrence) and the ordered list of those names.  When the
-function in the working tree has the same skeleton, it differs from the baseline by a consistent renaming of locals
-only; the in-memory AST is renamed back to the baseline names (line numbers are kept) and analysed as usual.  Any
-other edit leaves the function exactly as written.  Nothing here decides a property: the file holds digests and
-names, no source.
+The per-property checks locate many constructs through local variable names and statement shapes (`best_obj`,
+`total_weight += w`, `if residual > 0`).  A refactor that only renames locals, flips a comparison, expands an
+augmented assignment of a scalar, inverts an if/else, moves a numeric constant to the other side of `+`/`*` or routes
+a returned call through a temporary leaves behaviour unchanged, so it must not produce a report.
+
+For every top-level function / method (with its nested closures) `anchors/locals.json` records
+  * the digest of its *normal form*: the AST after the normalising rewrites N1-N5 below, with every unit-local name
+    replaced by the index of its first occurrence (alpha skeleton),
+  * the ordered list of local names of the baseline, and
+  * for every normalisable node of the normal form (in pre-order) which surface variant the baseline uses.
+When the function in the working tree has the same normal-form digest it is the baseline function up to those
+edits; its in-memory AST is rewritten into the baseline's surface variant and names (line numbers are kept) and
+analysed as usual.  Any other edit leaves the function exactly as written.  The file holds digests, names and
+variant flags - no source; nothing here decides a property.
+
+Normalising rewrites (each semantics-preserving under the stated side condition):
+  N1  x = x <op> e          ->  x <op>= e        x a plain local used as a scalar only (never subscripted, iterated,
+                                                 passed to len, tested with `in`, or used through an attribute): for such
+                                                 a name in-place and rebinding updates cannot be told apart
+  N2  a > b  /  a >= b      ->  b < a / b <= a   single comparison, no call / walrus inside (evaluation order irrelevant)
+      K == x / K != x       ->  x == K / x != K  K a constant
+  N3  if not c: A else: B   ->  if c: B else: A
+  N4  K + e  /  K * e       ->  e + K / e * K    K a numeric constant (IEEE + and * commute exactly)
+  N5  t = <call>; return t  ->  return <call>    t occurs nowhere else in the unit
 """
 
 from __future__ import annotations
 
 import ast
+import copy
 import hashlib
 import json
 import os
@@ -21,7 +38,13 @@ import os
 HERE = os.path.dirname(os.path.dirname(os.path.abspath(__file__)))
 ANCHORS = os.path.join(HERE, "anchors", "locals.json")
 
+_FLIP = {ast.Gt: ast.Lt, ast.GtE: ast.LtE}
+_UNFLIP = {ast.Lt: ast.Gt, ast.LtE: ast.GtE, ast.Eq: ast.Eq, ast.NotEq: ast.NotEq}
 
+
+# ---------------------------------------------------------------------------------------------------------------
+# alpha skeleton (unchanged from the rename-only version)
+# ---------------------------------------------------------------------------------------------------------------
 def _unit_locals(fn: ast.AST) -> set[str]:
     """names bound somewhere inside the unit (function + nested closures), except the unit's own parameters"""
     own_params = {a.arg for a in (fn.args.posonlyargs + fn.args.args + fn.args.kwonlyargs)}
@@ -73,8 +96,8 @@ def _occurrences(fn: ast.AST, locals_: set[str]):
         stack.extend(reversed(list(ast.iter_child_nodes(n))))
 
 
-def skeleton(fn: ast.AST):
-    """(digest, ordered local names).  Computed on a copy: the tree is not modified."""
+def _alpha(fn: ast.AST):
+    """(digest, ordered local names) of the tree as it is.  The tree is restored before returning."""
     locals_ = _unit_locals(fn)
     order: list[str] = []
     index: dict[str, int] = {}
@@ -100,6 +123,276 @@ def skeleton(fn: ast.AST):
         for n, attr, v in saved:
             setattr(n, attr, v)
     return hashlib.sha1(dump.encode()).hexdigest(), order
+
+
+# ---------------------------------------------------------------------------------------------------------------
+# normal form
+# ---------------------------------------------------------------------------------------------------------------
+def _scalar_names(fn: ast.AST) -> set[str]:
+    """locals never used in a way that suggests a container or object"""
+    names = _unit_locals(fn) | {a.arg for a in ast.walk(fn) if isinstance(a, ast.arg)}
+    bad: set[str] = set()
+    for n in ast.walk(fn):
+        if isinstance(n, (ast.Subscript, ast.Attribute, ast.Starred)) and isinstance(n.value, ast.Name):
+            bad.add(n.value.id)
+        elif isinstance(n, (ast.For, ast.comprehension)) and isinstance(n.iter, ast.Name):
+            bad.add(n.iter.id)
+        elif isinstance(n, ast.Call) and isinstance(n.func, ast.Name) and n.func.id in ("len", "list", "set", "tuple", "sorted", "sum", "min", "max", "iter", "enumerate", "zip", "any", "all", "dict"):
+            if n.func.id in ("min", "max") and len(n.args) > 1:
+                continue  # min(a, b) of scalars
+            for a in n.args:
+                if isinstance(a, ast.Name):
+                    bad.add(a.id)
+        elif isinstance(n, ast.Compare) and any(isinstance(o, (ast.In, ast.NotIn)) for o in n.ops):
+            for c in n.comparators:
+                if isinstance(c, ast.Name):
+                    bad.add(c.id)
+        elif isinstance(n, (ast.Assign, ast.AnnAssign)) and isinstance(getattr(n, "value", None), (ast.List, ast.ListComp, ast.Dict, ast.DictComp, ast.Set, ast.SetComp, ast.Tuple, ast.JoinedStr)):
+            for t in n.targets if isinstance(n, ast.Assign) else [n.target]:
+                if isinstance(t, ast.Name):
+                    bad.add(t.id)
+    return names - bad
+
+
+def _no_eval_order(e: ast.AST) -> bool:
+    return not any(isinstance(x, (ast.Call, ast.NamedExpr, ast.Await, ast.Yield, ast.YieldFrom)) for x in ast.walk(e))
+
+
+def _num_const(e: ast.AST) -> bool:
+    return isinstance(e, ast.Constant) and isinstance(e.value, (int, float)) and not isinstance(e.value, bool)
+
+
+def _count_name(fn: ast.AST, name: str) -> int:
+    return sum(1 for x in ast.walk(fn) if (isinstance(x, ast.Name) and x.id == name) or (isinstance(x, ast.Nonlocal) and name in x.names))
+
+
+class _Normaliser(ast.NodeTransformer):
+    """Rewrites to normal form; every node that has a surface variant gets `_v` (0 = already normal, 1 = the other
+    variant; for N5 the name of the temporary)."""
+
+    def __init__(self, fn: ast.AST):
+        self.fn = fn
+        self.scalars = _scalar_names(fn)
+        # N5: names used for nothing but `t = <call>; return t` pairs
+        pairs: dict[str, int] = {}
+        for n in ast.walk(fn):
+            for fld in ("body", "orelse", "finalbody"):
+                b = getattr(n, fld, None)
+                if isinstance(b, list):
+                    for s, nxt in zip(b, b[1:]):
+                        if self._is_temp_pair(s, nxt):
+                            pairs[s.targets[0].id] = pairs.get(s.targets[0].id, 0) + 1
+        self.temps = {t for t, k in pairs.items() if _count_name(fn, t) == 2 * k}
+
+    @staticmethod
+    def _is_temp_pair(s, nxt) -> bool:
+        return isinstance(s, ast.Assign) and len(s.targets) == 1 and isinstance(s.targets[0], ast.Name) and isinstance(s.value, ast.Call) and isinstance(nxt, ast.Return) and isinstance(nxt.value, ast.Name) and nxt.value.id == s.targets[0].id
+
+    # N5 works on statement lists
+    def _merge_temp_returns(self, body: list) -> list:
+        out = []
+        i = 0
+        while i < len(body):
+            s = body[i]
+            nxt = body[i + 1] if i + 1 < len(body) else None
+            if nxt is not None and self._is_temp_pair(s, nxt) and s.targets[0].id in self.temps:
+                r = ast.copy_location(ast.Return(value=s.value), s)
+                r._v = s.targets[0].id
+                out.append(r)
+                i += 2
+                continue
+            if isinstance(s, ast.Return) and isinstance(s.value, ast.Call) and not hasattr(s, "_v"):
+                s._v = 0
+            out.append(s)
+            i += 1
+        return out
+
+    def generic_visit(self, node):
+        node = super().generic_visit(node)
+        for fld in ("body", "orelse", "finalbody"):
+            b = getattr(node, fld, None)
+            if isinstance(b, list) and b and isinstance(b[0], ast.stmt):
+                setattr(node, fld, self._merge_temp_returns(b))
+        return node
+
+    def visit_Assign(self, n):
+        n = self.generic_visit(n)
+        if len(n.targets) == 1 and isinstance(n.targets[0], ast.Name) and isinstance(n.value, ast.BinOp) and isinstance(n.value.left, ast.Name) and n.value.left.id == n.targets[0].id and n.targets[0].id in self.scalars and self._scalar_operand(n.value.right):
+            a = ast.copy_location(ast.AugAssign(target=n.targets[0], op=n.value.op, value=n.value.right), n)
+            a._v = 1
+            return a
+        return n
+
+    @staticmethod
+    def _scalar_operand(e: ast.AST) -> bool:
+        """the other operand does not look like a sequence either (x += [..] extends in place, x = x + [..] rebinds)"""
+        if isinstance(e, (ast.List, ast.Tuple, ast.ListComp, ast.Set, ast.SetComp, ast.Dict, ast.DictComp, ast.JoinedStr, ast.GeneratorExp)):
+            return False
+        if isinstance(e, ast.Constant) and isinstance(e.value, (str, bytes)):
+            return False
+        if isinstance(e, ast.Call) and isinstance(e.func, ast.Name) and e.func.id in ("list", "tuple", "sorted", "set", "dict", "str"):
+            return False
+        return True
+
+    def visit_AugAssign(self, n):
+        n = self.generic_visit(n)
+        if isinstance(n.target, ast.Name) and n.target.id in self.scalars and self._scalar_operand(n.value):
+            n._v = 0
+        return n
+
+    def visit_Compare(self, n):
+        n = self.generic_visit(n)
+        if len(n.ops) != 1 or not _no_eval_order(n):
+            return n
+        op = type(n.ops[0])
+        l, r = n.left, n.comparators[0]
+        if op in _FLIP:
+            m = ast.copy_location(ast.Compare(left=r, ops=[_FLIP[op]()], comparators=[l]), n)
+            m._v = 1
+            return m
+        if op in (ast.Lt, ast.LtE):
+            n._v = 0
+        elif op in (ast.Eq, ast.NotEq):
+            if isinstance(l, ast.Constant) and not isinstance(r, ast.Constant):
+                m = ast.copy_location(ast.Compare(left=r, ops=[op()], comparators=[l]), n)
+                m._v = 1
+                return m
+            if isinstance(r, ast.Constant) and not isinstance(l, ast.Constant):
+                n._v = 0
+        return n
+
+    def visit_If(self, n):
+        n = self.generic_visit(n)
+        if n.orelse:
+            if isinstance(n.test, ast.UnaryOp) and isinstance(n.test.op, ast.Not):
+                m = ast.copy_location(ast.If(test=n.test.operand, body=n.orelse, orelse=n.body), n)
+                m._v = 1
+                return m
+            n._v = 0
+        return n
+
+    def visit_BinOp(self, n):
+        n = self.generic_visit(n)
+        if isinstance(n.op, (ast.Add, ast.Mult)):
+            if _num_const(n.left) and not isinstance(n.right, ast.Constant):
+                m = ast.copy_location(ast.BinOp(left=n.right, op=n.op, right=n.left), n)
+                m._v = 1
+                return m
+            if _num_const(n.right) and not isinstance(n.left, ast.Constant):
+                n._v = 0
+        return n
+
+
+def _variant_nodes(nf: ast.AST) -> list:
+    """nodes of the normal form that have a surface variant, in pre-order"""
+    out = []
+    stack = [nf]
+    while stack:
+        n = stack.pop()
+        if hasattr(n, "_v"):
+            out.append(n)
+        stack.extend(reversed(list(ast.iter_child_nodes(n))))
+    return out
+
+
+def normal_form(fn: ast.AST):
+    """(normal-form tree (a rewritten deep copy), digest, local names, variants)"""
+    nf = copy.deepcopy(fn)
+    for x in ast.walk(nf):
+        if hasattr(x, "_v"):
+            del x._v
+    nz = _Normaliser(nf)
+    nf = nz.visit(nf)
+    ast.fix_missing_locations(nf)
+    dig, order = _alpha(nf)
+    variants = [n._v for n in _variant_nodes(nf)]
+    return nf, dig, order, variants
+
+
+class _Restorer(ast.NodeTransformer):
+    """turns variant nodes of a normal form into the surface variant the baseline uses"""
+
+    def __init__(self, want: dict):
+        self.want = want  # id(node) -> variant
+
+    def _blocks(self, node):
+        for fld in ("body", "orelse", "finalbody"):
+            b = getattr(node, fld, None)
+            if isinstance(b, list) and b and isinstance(b[0], ast.stmt):
+                nb = []
+                for s in b:
+                    if isinstance(s, list):
+                        nb.extend(s)
+                    else:
+                        nb.append(s)
+                setattr(node, fld, nb)
+        return node
+
+    def generic_visit(self, node):
+        node = super().generic_visit(node)
+        return self._blocks(node)
+
+    def visit_Return(self, n):
+        v = self.want.get(id(n), 0)
+        n = self.generic_visit(n)
+        if isinstance(v, str):
+            a = ast.copy_location(ast.Assign(targets=[ast.Name(id=v, ctx=ast.Store())], value=n.value), n)
+            r = ast.copy_location(ast.Return(value=ast.Name(id=v, ctx=ast.Load())), n)
+            return [a, r]
+        return n
+
+    def visit_AugAssign(self, n):
+        v = self.want.get(id(n), 0)
+        n = self.generic_visit(n)
+        if v == 1:
+            return ast.copy_location(ast.Assign(targets=[ast.Name(id=n.target.id, ctx=ast.Store())], value=ast.BinOp(left=ast.Name(id=n.target.id, ctx=ast.Load()), op=n.op, right=n.value)), n)
+        return n
+
+    def visit_Compare(self, n):
+        v = self.want.get(id(n), 0)
+        n = self.generic_visit(n)
+        if v == 1:
+            return ast.copy_location(ast.Compare(left=n.comparators[0], ops=[_UNFLIP[type(n.ops[0])]()], comparators=[n.left]), n)
+        return n
+
+    def visit_If(self, n):
+        v = self.want.get(id(n), 0)
+        n = self.generic_visit(n)
+        if v == 1:
+            return ast.copy_location(ast.If(test=ast.UnaryOp(op=ast.Not(), operand=n.test), body=n.orelse, orelse=n.body), n)
+        return n
+
+    def visit_BinOp(self, n):
+        v = self.want.get(id(n), 0)
+        n = self.generic_visit(n)
+        if v == 1:
+            return ast.copy_location(ast.BinOp(left=n.right, op=n.op, right=n.left), n)
+        return n
+
+
+def _raw(node: ast.AST) -> str:
+    return hashlib.sha1(ast.dump(node, annotate_fields=False, include_attributes=False).encode()).hexdigest()
+
+
+def skeleton(fn: ast.AST):
+    """(digest, ordered local names) of the normal form.  The tree is not modified."""
+    _, dig, order, _ = normal_form(fn)
+    return dig, order
+
+
+def _wrap(stmt: ast.stmt) -> ast.FunctionDef:
+    """a module-level assignment as a pseudo unit, so that constants such as move tables get the same tolerance"""
+    f = ast.FunctionDef(name="<module>", args=ast.arguments(posonlyargs=[], args=[], kwonlyargs=[], kw_defaults=[], defaults=[]), body=[stmt], decorator_list=[], returns=None, type_params=[])
+    return ast.copy_location(f, stmt)
+
+
+def module_units(tree: ast.Module):
+    """(key, index in tree.body, statement) for every module-level assignment to a plain name"""
+    for i, n in enumerate(tree.body):
+        if isinstance(n, ast.Assign) and len(n.targets) == 1 and isinstance(n.targets[0], ast.Name):
+            yield f"<module>.{n.targets[0].id}", i, n
+        elif isinstance(n, ast.AnnAssign) and isinstance(n.target, ast.Name) and n.value is not None:
+            yield f"<module>.{n.target.id}", i, n
 
 
 def units(tree: ast.Module):
@@ -128,24 +421,65 @@ def baseline() -> dict:
 
 
 def derename(rel: str, tree: ast.Module) -> list[str]:
-    """Rename alpha-equivalent units back to their baseline names, in place.  Returns the list of units renamed."""
+    """Rewrite units that equal their baseline up to surface edits into the baseline's surface form, in place.
+    Returns the list of units rewritten."""
     base = baseline()
     done = []
     for q, fn in units(tree):
         b = base.get(f"{rel}::{q}")
         if not b:
             continue
-        dig, order = skeleton(fn)
-        if dig != b["skeleton"] or order == b["names"] or len(order) != len(b["names"]):
+        if b.get("raw") == _raw(fn):
+            continue  # textually the baseline function: nothing to do (the common case, kept cheap)
+        nf, dig, order, variants = normal_form(fn)
+        if dig != b["skeleton"] or len(order) != len(b["names"]) or len(variants) != len(b.get("variants", [])):
             continue
+        if order == b["names"] and variants == b["variants"]:
+            continue
+        # 1. surface variants of the baseline
+        nodes = _variant_nodes(nf)
+        want = {id(n): v for n, v in zip(nodes, b["variants"])}
         mapping = dict(zip(order, b["names"]))
+        nf = _Restorer(want).visit(nf)
+        # temporaries re-introduced by N5 carry baseline names already; everything else is renamed
+        temps = {v for v in b["variants"] if isinstance(v, str)}
         locals_ = set(order)
-        for n, attr in list(_occurrences(fn, locals_)):
+        for n, attr in list(_occurrences(nf, locals_ | temps)):
             if attr == "names":
                 n.names = [mapping.get(x, x) for x in n.names]
             else:
-                setattr(n, attr, mapping.get(getattr(n, attr), getattr(n, attr)))
+                cur = getattr(n, attr)
+                if cur in temps and cur not in mapping:
+                    continue
+                setattr(n, attr, mapping.get(cur, cur))
+        ast.fix_missing_locations(nf)
+        fn.body = nf.body
+        fn.args = nf.args
+        fn.decorator_list = nf.decorator_list
+        fn.returns = nf.returns
         done.append(q)
+    for q, i, stmt in list(module_units(tree)):
+        b = base.get(f"{rel}::{q}")
+        if not b:
+            continue
+        if b.get("raw") == _raw(stmt):
+            continue
+        nf, dig, order, variants = normal_form(_wrap(stmt))
+        if dig != b["skeleton"] or len(order) != len(b["names"]) or len(variants) != len(b.get("variants", [])):
+            continue
+        if order == b["names"] and variants == b["variants"]:
+            continue
+        # the assigned name itself is not a local of the pseudo unit's caller: keep it
+        nodes = _variant_nodes(nf)
+        nf = _Restorer({id(n): v for n, v in zip(nodes, b["variants"])}).visit(nf)
+        mapping = dict(zip(order, b["names"]))
+        for n, attr in list(_occurrences(nf, set(order))):
+            if attr != "names":
+                setattr(n, attr, mapping.get(getattr(n, attr), getattr(n, attr)))
+        ast.fix_missing_locations(nf)
+        if len(nf.body) == 1:
+            tree.body[i] = nf.body[0]
+            done.append(q)
     return done
 
 
@@ -162,6 +496,9 @@ def build_baseline(root: str, package: str = "solvor") -> dict:
             with open(p, encoding="utf-8") as fh:
                 tree = ast.parse(fh.read())
             for q, fn in units(tree):
-                dig, order = skeleton(fn)
-                out[f"{rel}::{q}"] = {"skeleton": dig, "names": order}
+                _, dig, order, variants = normal_form(fn)
+                out[f"{rel}::{q}"] = {"skeleton": dig, "names": order, "variants": variants, "raw": _raw(fn)}
+            for q, _i, stmt in module_units(tree):
+                _, dig, order, variants = normal_form(_wrap(stmt))
+                out[f"{rel}::{q}"] = {"skeleton": dig, "names": order, "variants": variants, "raw": _raw(stmt)}
     return out
